@@ -142,3 +142,34 @@ def shape(nodes):
         elif nd.t == 'D':
             out.append(('D', nd.id, nd.factor.id, shape(nd.members)))
     return out
+
+
+def fix_ncep(nodes):
+    """NCEP in-stream tables define "replication-only" sequences such as [101000, 031001]: the
+    descriptor to replicate is not part of the sequence but follows it.  Returns a new node
+    list in which such a sequence (or a bare replication without body) owns the node that
+    follows it.  Applied recursively; nodes are copied, the shared sequence cache is not
+    modified."""
+    out = []
+    pending = list(nodes)
+    while pending:
+        nd = pending.pop(0)
+        if nd.t == 'S' and nd.members is not None and len(nd.members) == 1 and nd.members[0].t in ('R', 'D') \
+                and not nd.members[0].members:
+            pending.insert(0, nd.members[0])
+            continue
+        if nd.t in ('R', 'D'):
+            members = list(nd.members)
+            if not members:
+                if (nd.id // 1000) % 100 != 1 or not pending:
+                    raise IllFormed('replication %06d without body' % nd.id)
+                members = [pending.pop(0)]
+            c = Node(nd.t, nd.id, members=fix_ncep(members), count=nd.count, factor=nd.factor)
+            c.src = nd.src
+            out.append(c)
+        elif nd.t == 'S':
+            c = Node('S', nd.id, members=fix_ncep(nd.members), name=nd.name)
+            out.append(c)
+        else:
+            out.append(nd)
+    return out
